@@ -367,7 +367,7 @@ class StmtGen(Gen):
             st = [Decl(name, dst, self.expr(src, 1))]
             self.scope.vars.append((name, dst, True))
             return st
-        if k < 0.7 and self.prog.funcs:
+        if k < 0.76 and self.prog.funcs:
             f = r.choice(self.prog.funcs)
             args = self.call_args(f, d)
             if args is not None:
@@ -385,7 +385,12 @@ class StmtGen(Gen):
                     return None
                 args.append(self.r.choice(ts))
             else:
-                args.append(self.expr(p.ty, max(0, d - 1)))
+                # a plain variable as by-value argument of a heap type is what copy elision looks at
+                vs = [n for n, t, _ in self.scope.all() if t == p.ty] if (p.ty not in PRIMS or p.ty == T) else []
+                if vs and self.r.random() < 0.5:
+                    args.append(Var(self.r.choice(vs), p.ty))
+                else:
+                    args.append(self.expr(p.ty, max(0, d - 1)))
         return args
 
     def block(self, n, d, nest):
@@ -495,7 +500,7 @@ class StmtGen(Gen):
         top = self.scope
         while top.parent is not None:
             top = top.parent
-        self.scope = Scope(top)
+        self.scope = Scope(None if getattr(self, "pure_funcs", False) else top)
         for p in params:
             self.scope.vars.append((p.name, p.ty, True))
         self.in_function, self.loop_depth, self.cur_ret = True, 0, ret
@@ -517,9 +522,12 @@ class StmtGen(Gen):
         self.prog.items.append(f)
         return f
 
-    def build(self, n_items=25, d=2, nest=2, n_funcs=2):
-        """a whole program: a few globals, functions, then top-level statements (each kept only if the model accepts it)"""
+    def build(self, n_items=25, d=2, nest=2, n_funcs=2, pure_funcs=False):
+        """a whole program: a few globals, functions, then top-level statements (each kept only if the model accepts it).
+        pure_funcs: function bodies see their parameters only (then wrap_in_function(prog, allow_funcs=True) can turn every
+        top-level variable into a local of one function while the calls stay)"""
         r = self.r
+        self.pure_funcs = pure_funcs
         for ty in r.sample(self.types, min(len(self.types), 7)):
             self.declare(ty)
         for _ in range(n_funcs):
@@ -540,13 +548,14 @@ class StmtGen(Gen):
         return self.prog
 
 
-def wrap_in_function(prog, name="haupt"):
+def wrap_in_function(prog, name="haupt", allow_funcs=False):
     """move all top-level statements into one function (so that every variable is a LOCAL) and call it;
-    only possible when the program declares no functions of its own (they could not see the variables any more)"""
-    if any(isinstance(it, FuncDecl) for it in prog.items):
+    only possible when the program declares no functions of its own (they could not see the variables any more)
+    or when those functions were generated with pure_funcs (allow_funcs=True)"""
+    if not allow_funcs and any(isinstance(it, FuncDecl) for it in prog.items):
         return False
-    decls = [it for it in prog.items if isinstance(it, StructDecl)]
-    stmts = [it for it in prog.items if not isinstance(it, StructDecl)]
+    decls = [it for it in prog.items if isinstance(it, (StructDecl, FuncDecl) if allow_funcs else StructDecl)]
+    stmts = [it for it in prog.items if not isinstance(it, (StructDecl, FuncDecl) if allow_funcs else StructDecl)]
     if not stmts:
         return False
     f = FuncDecl(name, [], NICHTS, stmts)
